@@ -3488,7 +3488,18 @@ class Inflate(Array):
 
     def _intbounds_impl(self):
         lower, upper = self.func._intbounds
-        return min(lower, 0), max(upper, 0)
+        # Entries of func that share a dof are summed: unless the dofmap is
+        # known to be free of repetitions, as many as the dofmap has entries.
+        dofmap = self.dofmap
+        if isinstance(dofmap, Range) or isinstance(dofmap, Constant) and len(numpy.unique(dofmap.value)) == dofmap.value.size:
+            count = 1
+        else:
+            count = 1
+            for n in self.dofmap.shape:
+                count *= n._intbounds[1]
+        if count == 0:
+            return 0, 0
+        return (lower * count if lower < 0 else 0), (upper * count if upper > 0 else 0)
 
     def _argument_degree(self, argument):
         if argument not in self.dofmap.arguments and argument not in self.length.arguments:
